@@ -133,7 +133,7 @@ def main():
                                      "counterexamples replayed natively")],
         checks=checks,
         notes="Exit codes: 0 holds within bounds; 1 natively reproduced violation (VIOLATION line); 2 inconclusive/harness error. "
-              "Known findings (KF-1, KF-2a-f, KF-3) in known_findings.json; fix commits ffbc1d8, 40a4ab5, aa12cad, ae4ce9f in /repo. "
+              "Known findings (KF-1, KF-2a-f, KF-3) in known_findings.json; fix commits ffbc1d8, 40a4ab5, aa12cad, ae4ce9f, c36e3df in /repo. "
               "Quick tier: 1-40 s per property (about 4.5 min for all 17); thorough tier: 1 s - 13 min per property (about 85 min for all). "
               "Harnesses labelled CONCRETE / SENTINEL in the evidence are concrete executions, not solver verdicts. See DESIGN.md section 10.",
         not_applicable=na)
